@@ -24,6 +24,7 @@ type MicroSpec struct {
 	MemQ  int64    `json:"memq"`
 	Ops   []string `json:"ops"`
 	Unbuf bool     `json:"unbuf,omitempty"` // consumers negotiate output_buffer_size -1
+	Solo  bool     `json:"solo,omitempty"`  // only c1 subscribes (c2 stays an idle connection)
 	Trace bool     `json:"trace,omitempty"`
 }
 
@@ -34,6 +35,9 @@ func (s MicroSpec) String() string {
 	}
 	if s.Unbuf {
 		e += "/unbuf"
+	}
+	if s.Solo {
+		e += "/solo"
 	}
 	return fmt.Sprintf("%s/%s/memq%d/%s", s.State, e, s.MemQ, strings.Join(s.Ops, "|"))
 }
@@ -370,13 +374,16 @@ func (x *microCtx) setup() string {
 		if spec.Unbuf {
 			c.Identify(map[string]interface{}{"client_id": c.Name, "output_buffer_size": -1})
 		}
+		if spec.Solo && c == x.c2 {
+			continue
+		}
 		c.Cmd("SUB "+x.topic+" "+x.ch, nil)
 		if f, ok := c.Next(); !ok || string(f.Data) != "OK" {
 			return "sub failed: " + f.String()
 		}
 	}
 	x.k1, x.k2 = x.client(x.c1), x.client(x.c2)
-	if x.k1 == nil || x.k2 == nil {
+	if x.k1 == nil || (x.k2 == nil && !spec.Solo) {
 		return "client lookup failed"
 	}
 	pub := func(body string) {
@@ -1028,6 +1035,7 @@ func (x *microCtx) afterRestart() {
 	// consumer's messagePump does (StartInFlightTimeout after it took the message off the
 	// queue before the flush): the window nsqd's own comments acknowledge.
 	pumpHeld := map[string]bool{}
+	vrt.Quiesce() // (consumer pumps are told to stop, not waited for: let them finish)
 	if x.oldCh != nil {
 		for _, m := range x.oldCh.inFlightMessages {
 			pumpHeld[string(m.Body)] = true
